@@ -21,7 +21,8 @@ Norm(d) == IF d.t = "A" THEN A([i \in 1..Len(SelectSeq(d.e, LAMBDA x : x.t # "U"
 RECURSIVE SameDoc(_, _)
 SameDoc(x, y) ==
     IF x.t # y.t THEN FALSE
-    ELSE IF x.t = "N" THEN (x.k = "approx" \/ y.k = "approx" \/ x.m = y.m)
+    ELSE IF x.t = "N" THEN (IF x.k = "big" THEN (y.k = "big" /\ y.neg = x.neg /\ y.d = x.d)            \* a 64-bit integer survives exactly
+                            ELSE (x.k = "approx" \/ y.k \in {"approx", "big"} \/ x.m = y.m))
     ELSE IF x.t = "S" THEN x.s = y.s
     ELSE IF x.t = "A" THEN Len(x.e) = Len(y.e) /\ \A i \in 1..Len(x.e) : SameDoc(x.e[i], y.e[i])
     ELSE IF x.t = "O" THEN Len(x.m) = Len(y.m) /\ \A i \in 1..Len(x.m) : x.m[i].k = y.m[i].k /\ SameDoc(x.m[i].v, y.m[i].v)
